@@ -438,7 +438,7 @@ func poolThread(id int, script string, pool hessian.Pool, w *ownership, mu *sync
 
 func init() {
 	core.Register(&core.Prop{
-		ID: "C17", Level: "model_checking",
+		ID: "C17", Level: "model_checking", StallS: 90,
 		Rule:        "Layer 1 (explicit-state BFS, successor by replay): all histories of {Get by holder 1..3, Return of any held object, Return of a foreign object} on pools of size 0..8 from newPool with a counting factory and from the three public constructors, to depth 2*size+4 (quick: size<=4, depth cap 10), states canonicalised as (idle count read through the verif hook, held counts, factory calls), with the ownership reference model R3 in lock-step, plus a drain after every history. Layer 2 (controlled scheduler over statement-level points spliced into pool.go): 2 threads (<=6 preemptions quick, <=10 thorough: on the current tree, whose Get and Return have 3 and 1 points, that is every interleaving) and 3 threads (<=3 / <=4 preemptions) running scripts from {G, GR, GRG, GGRR, foreign-Return+G, GRGR} on pools of size 0..2 with every initial fill, and round-robin quantum sweeps for 8/16/64 threads; a companion free-running pass under the race detector (64 goroutines). Oracle at every step: the object Get returns is held by nobody; it is new (exactly one factory call) or was returned and not handed out since; the pool never holds more than its size; an object from an empty pool is of the advertised type and works; no thread is ever natively blocked or deadlocked. Distinct = distinct canonical states (layer 1) / schedules (layer 2).",
 		Assumptions: []string{"native blocking is read from the goroutine wait state while every other controlled thread is parked", "the race-detector pass is a companion (free-running), not an exhaustive method"},
 		Units: func(tier string) []core.Unit {
